@@ -269,7 +269,7 @@ func (rt *sessRT) writer(conn net.Conn, dr *dirRT, sc *spec.Script, isClient boo
 
 func (rt *sessRT) streamProp() string {
 	switch rt.w.Spec.Property {
-	case "C04", "C05", "C06", "C10":
+	case "C04", "C05", "C06", "C08", "C10":
 		// the genuine workload's stream oracle is part of these properties
 		return rt.w.Spec.Property
 	}
